@@ -39,6 +39,8 @@ def unquote(src):
 def full_len(rec):
     if 'w' in rec:
         return rec['L']
+    if rec['a'] == 'copyfail':
+        return 0
     if rec['a'] == 'copy':
         return len(unquote(rec['src']))
     if rec['m'] == 'f':
